@@ -786,7 +786,28 @@ def _ap_post_hints(c):
             patterns=[st.lat(sj, i)]))),
         L.Lemma('the-chain-is-the-tail-of-the-extended-list', ForAll([i], Implies(
             And(0 <= i, i < st.llen(chain)), st.lat(chain, i) == st.lat(sj, start + i)), patterns=[st.lat(chain, i)])),
+    ] + _ap_link_lemmas(c, st, sj, chain, start)
+
+
+def _ap_link_lemmas(c, st, sj, chain, start):
+    a, b = q(2)
+    i = fresh('i', L.I)
+    n1 = st.llen(sj)
+    nc = st.llen(chain)
+    npairs = z3.If(nc >= 1, nc - 1, 0)
+    ce = lambda a_, b_: Exists([i], And(0 <= i, i < npairs, st.lat(chain, i + 1) == a_, st.lat(chain, i) == b_, a_ != b_))
+    link = lambda a_, b_: Exists([i], And(start <= i, i < n1 - 1, st.lat(sj, i + 1) == a_, st.lat(sj, i) == b_, a_ != b_))
+    E0 = lambda a_, b_: E(c.pre, a_, b_)
+    return [
+        L.Lemma('a-link-of-the-chain-is-a-link-of-the-tail', ForAll([a, b], Implies(ce(a, b), link(a, b)))),
+        L.Lemma('a-link-of-the-tail-is-a-link-of-the-chain', ForAll([a, b], Implies(link(a, b), ce(a, b)))),
+        L.Lemma('requirements-after-the-chain-loop-are-final', ForAll([a, b], Implies(
+            And(isa['AbstractJob'](a), c.pre.alive(a)), E(st, a, b) == Or(E0(a, b), ce(a, b))), patterns=[E(st, a, b)])),
     ]
+
+
+def _unused2():
+    return []
 
 
 c.post_hints = _ap_post_hints
